@@ -12,6 +12,7 @@ from . import common
 POOL_HEAVY = {"FicksLawOptimization", "KrillHerdOptimization", "WildebeestHerdOptimization", "WindDrivenOptimization",
               "DragonflyOptimization", "CatSwarmOptimization"}
 RESULT_PROPS = ("C01", "C02", "C03", "C10")
+PLUMBING = {"_greedy_select_population", "_generate_agents", "get_pool_executor"}
 
 
 def make_items(tier, seed):
@@ -39,13 +40,32 @@ def make_items(tier, seed):
                 want[k] -= 1
                 if want[k] == 0:
                     del want[k]
-                workers = rng.randint(1, 16) if mode == "thread" else (rng.randint(1, 16) if tier == "thorough" else rng.randint(2, 6))
+                workers = rng.randint(1, 16) if mode == "thread" else (rng.randint(1, 16) if tier == "thorough" else rng.choice([2, 3, 4, 5, 6, 11, 16]))
                 # thread/process variants are unaudited anyway, so their seed can be varied freely: documented special
                 # values (0 is falsy!), unseeded, and the case's own seed
                 sd = rng.choice(["own", "own", 0, 0, 1, "none", 42, 2 ** 32 - 1])
                 items.append({"i": i, "mode": mode, "workers": workers, **({} if sd == "own" else {"seed": sd}),
                               **({"yield": True} if mode == "thread" and rng.random() < (0.35 if tier == "quick" else 0.5) else {}),
                               "delay": {"salt": f"{seed}-{i}-{mode}", "max_ms": 3.0 if mode == "thread" else 2.0, "p": 0.5}})
+                break
+    # worker-count corners for the optimizers that use the pool beyond initialisation: workers around the population size
+    # (population - 1, population, population + 1) and the maximum 16, in both pooled modes
+    corner_need = {(n, m): 3 if tier == "quick" else 8 for n in sorted(POOL_HEAVY) for m in ("thread", "process")}
+    for i in idx:
+        if not corner_need:
+            break
+        c = universe.case(i)
+        if c["opt"] not in POOL_HEAVY or not tasks.is_strict_class(c["spec"]):
+            continue
+        pop = c["cfg"]["population_size"]
+        for mode in ("thread", "process"):
+            k = (c["opt"], mode)
+            if k in corner_need:
+                w = rng.choice([x for x in (pop - 1, pop, pop + 1, 16, 16) if 1 <= x <= 16])
+                items.append({"i": i, "mode": mode, "workers": w, "delay": {"salt": f"{seed}-{i}-c", "max_ms": 1.0, "p": 0.3}})
+                corner_need[k] -= 1
+                if corner_need[k] == 0:
+                    del corner_need[k]
                 break
     return items
 
@@ -75,6 +95,13 @@ def check(prop, tier, seed):
             perms.add(tuple(p))
         for v in obs["viol"].get("C11", []):
             rep.violation(v["key"], f"[{obs['mode']}, {obs['workers']} workers] " + v["detail"], replay={"kind": "campaign", "item": item, "record_args": True})
+        # a pooled run that fails while the pool is being created or fed (not inside an evaluation) is a failure of the
+        # scheduling machinery itself; algorithm-internal exceptions are C06's business and are not judged here
+        if obs["outcome"] == "exception" and obs["exc"]["func"].split(":")[-1] in PLUMBING:
+            e = obs["exc"]
+            rep.violation({"optimizer": obs["opt"], "kind": "pool-plumbing-exception", "exc": e["exc"], "func": e["func"]},
+                          f"[{obs['mode']}, {obs['workers']} workers, population {universe.case(item['i'])['cfg']['population_size']}] "
+                          f"{e['exc']}: {e['msg'][:160]} via {' > '.join(e['chain'])}", replay={"kind": "campaign", "item": item, "record_args": True})
         for rp in RESULT_PROPS:
             for v in obs["viol"].get(rp, []):
                 key = dict(v["key"])
